@@ -189,3 +189,25 @@ Definition check_drv (prop : Z) (inp impl : sx) : sx :=
       end
   | _ => badcase
   end.
+
+(** ---- kind 19: the real sackDriver.ReadHandshake under the virtual clock, frames arriving over time *)
+Definition d_tframe (s : sx) : option (Z * bytes) :=
+  match s with L [A a; f] => match sx_bytes f with Some b => Some (a, b) | None => None end | _ => None end.
+
+Definition check_hs_timed (prop : Z) (inp impl : sx) : sx :=
+  match inp, impl with
+  | L [A 19; cfgs; L frames], L [A status; A elapsed] =>
+      match d_cfg cfgs, dec_list d_tframe frames with
+      | Some c, Some fr =>
+          let cls := 1 + 2 * Z.min 15 (Z.of_nat (length fr)) in
+          (* C08: the handshake read returns within its timeout whatever arrives *)
+          if (prop =? 8) && (handshake_read_timeout <? elapsed) then verdict V_SPECFAIL cls [8; 3] (L [])
+          else
+            let m := read_handshake_timed c handshake_read_timeout fr in
+            let ok := match fst m with HEstablished _ => status =? 1 | HNotSupported => status =? 2 | HTimeout | HError => status =? 3 end in
+            if ok && (snd m =? elapsed) then verdict V_OK cls [] (L [])
+            else verdict V_DIVERGE cls [] (L [A (snd m)])
+      | _, _ => badcase
+      end
+  | _, _ => badcase
+  end.
